@@ -1164,7 +1164,113 @@ def _eq_member(test: ast.AST, member: str) -> bool:
     return False
 
 
+
+def lca_propagate(prog: Program) -> RuleResult:
+    res = RuleResult(
+        "LCA-PROPAGATE",
+        "reconcile_lca maps a leaf to its given species and every internal node to the LCA oracle of the images "
+        "of all of its children (computed bottom-up), and returns that mapping for its own input",
+    )
+    modname = "compute.reconciliation"
+    mod = prog.module(modname)
+    fn = prog.func(modname, "reconcile_lca")
+    inp = func_params(fn)[0]
+    loops = [n for n in fn.body if isinstance(n, ast.For)]
+    if len(loops) != 1 or not isinstance(loops[0].target, ast.Name):
+        raise AnalysisError("reconcile_lca: traversal loop not recognised")
+    loop = loops[0]
+    node = loop.target.id
+    stores = [
+        n
+        for n in walk_no_nested(loop)
+        if isinstance(n, ast.Assign)
+        and isinstance(n.targets[0], ast.Subscript)
+        and dotted(n.targets[0].slice) == node
+        and isinstance(n.targets[0].value, ast.Name)
+    ]
+    if not stores:
+        raise AnalysisError("reconcile_lca: no assignment rec[node] = ... found")
+    rec = stores[0].targets[0].value.id  # type: ignore[union-attr]
+    kids = _children_derived(_LoopShim(fn, loop), node)
+    for st in stores:
+        gs = guards(fn, st)
+        leaf = [pol for g, pol in gs if isinstance(g, ast.Call) and isinstance(g.func, ast.Attribute) and g.func.attr == "is_leaf" and dotted(g.func.value) == node]
+        value = st.value
+        if isinstance(value, ast.Name):
+            v = reaching(fn, value.id, st)
+            if v is not None and not isinstance(v, Opaque):
+                value = v
+        if leaf and leaf[0]:
+            construct = f"{modname}:reconcile_lca/leaf"
+            ok = (
+                isinstance(value, ast.Subscript)
+                and isinstance(value.value, ast.Attribute)
+                and value.value.attr == "leaf_object_species"
+                and dotted(value.value.value) == inp
+                and dotted(value.slice) == node
+            )
+            if ok:
+                res.ok(construct, short(st))
+            else:
+                res.fail(construct, f"a leaf is mapped to `{short(st.value)}`, not to {inp}.leaf_object_species[{node}]", mod, st)
+        else:
+            construct = f"{modname}:reconcile_lca/internal"
+            problems = []
+            if not (isinstance(value, ast.Call) and dotted(value.func) == f"{inp}.species_lca"):
+                problems.append(f"the image is `{short(value)}`, not a call of {inp}.species_lca")
+            else:
+                covered = set()
+                all_children = False
+                for arg in value.args:
+                    inner = arg.value if isinstance(arg, ast.Starred) else arg
+                    if isinstance(inner, ast.Subscript) and dotted(inner.value) == rec and dotted(inner.slice) in kids:
+                        covered.add(dotted(inner.slice))
+                    elif isinstance(inner, (ast.GeneratorExp, ast.ListComp)) and isinstance(arg, ast.Starred):
+                        gen = inner.generators[0]
+                        if (
+                            isinstance(gen.iter, ast.Attribute)
+                            and gen.iter.attr == "children"
+                            and dotted(gen.iter.value) == node
+                            and not gen.ifs
+                            and isinstance(inner.elt, ast.Subscript)
+                            and dotted(inner.elt.value) == rec
+                            and dotted(inner.elt.slice) == dotted(gen.target)
+                        ):
+                            all_children = True
+                    else:
+                        problems.append(f"argument `{short(arg)}` is not the image of a child")
+                unpacked = [
+                    n
+                    for n in walk_no_nested(loop)
+                    if isinstance(n, ast.Assign) and isinstance(n.value, ast.Attribute) and n.value.attr == "children" and isinstance(n.targets[0], ast.Tuple)
+                ]
+                expected = {e.id for u in unpacked for e in u.targets[0].elts if isinstance(e, ast.Name)}
+                if not all_children and (not expected or covered != expected):
+                    problems.append(
+                        f"the LCA is taken over the images of {sorted(covered)} but the node's children are {sorted(expected)}"
+                    )
+            if problems:
+                res.fail(construct, "; ".join(problems), mod, st)
+            else:
+                res.ok(construct, short(st))
+    rets = [n for n in walk_no_nested(fn) if isinstance(n, ast.Return)]
+    okr = (
+        len(rets) == 1
+        and isinstance(rets[0].value, ast.Call)
+        and dotted(rets[0].value.func) == "ReconciliationOutput"
+        and [dotted(a) for a in rets[0].value.args] == [inp, rec]
+        and not loops_around(fn, rets[0])
+    )
+    if okr:
+        res.ok(f"{modname}:reconcile_lca/return", short(rets[0]))
+    else:
+        res.fail(f"{modname}:reconcile_lca/return", "does not return ReconciliationOutput(input, mapping) after the traversal", mod, fn)
+    res.floor(3)
+    return res
+
+
 RULES = {
+    "LCA-PROPAGATE": lca_propagate,
     "DECODE-GUARD": decode_guard,
     "DECODE-COMPLETE": decode_complete,
     "DECODE-PRODUCT": decode_product,
